@@ -145,6 +145,12 @@ impl ConnectionManager {
                 connecting = self.endpoint.accept() => {
                     if let Some(connecting) = connecting {
                         self.handle_incoming(connecting);
+                    } else {
+                        // `None` is what the endpoint keeps returning once it can no longer
+                        // accept connections (e.g. its driver is gone because the runtime is
+                        // shutting down). Yield so that this task can be cancelled instead of
+                        // spinning on an always-ready branch.
+                        tokio::task::yield_now().await;
                     }
                 },
                 Some(connecting_output) = self.pending_connections.join_next() => {
